@@ -186,7 +186,8 @@ N02(w, o) == /\ w.leafRole = "pck" /\ w.interSlot = "inter"
 
 \* C03: collateral authentic, per document; values are those of the signed member
 DocOk(w, s, ov, al, h, m) ==
-             /\ w[s] = "ok" /\ InPool(Home(w), w)
+             /\ \/ (w[s] = "ok" /\ InPool(Home(w), w))                                   \* signer certified by a trusted root for that role:
+                \/ (w[s] = "pkiB" /\ InPool(IF Home(w) = "A" THEN "B" ELSE "A", w))      \* the look-alike PKI's signer counts iff that PKI is trusted too
              /\ w[ov] = "member" /\ w[al] = "none"
              /\ w[h] \in {"ok", "duplicated"}
              /\ w[m] = "ok"
@@ -410,14 +411,16 @@ Complete_C11 == (Done /\ Honest(w, o)) => verdict = "accept"
 Gating_C12 == Gating(o, fetches)
 \* more checking never accepts more (over the pipeline function, for the world of this state)
 L(g, c) == [gc |-> g, cr |-> c, now |-> o.now, entry |-> o.entry]
-Monotone_C12 == /\ CodeVerdict(w, L(TRUE, TRUE)) = "accept" => CodeVerdict(w, L(TRUE, FALSE)) = "accept"
+\* (a statement about the world alone: evaluated once per behaviour, in its initial state)
+Monotone_C12 == pc = 1 =>
+                /\ CodeVerdict(w, L(TRUE, TRUE)) = "accept" => CodeVerdict(w, L(TRUE, FALSE)) = "accept"
                 /\ CodeVerdict(w, L(TRUE, FALSE)) = "accept" => CodeVerdict(w, L(FALSE, FALSE)) = "accept"
                 /\ CodeVerdict(w, L(FALSE, TRUE)) = "reject"
 \* the step machine and the function agree ("either" branches all end in reject)
 MachineIsFunction == Done => verdict = CodeVerdict(w, o)
 \* once expired, rejected at every later time (C06, second sentence): moving the governing clock from
 \* "after" further on is the same abstract world; moving it from before/at to after never helps
-LaterNeverHelps ==
+LaterNeverHelps == pc = 1 =>
   \A a \in Arts : LET later == [w EXCEPT !.time = a \o "_after"]
                   IN (TimeArt(w) = a /\ TimePos(w) \in {"before", "at"} /\ Needs(o, a))
                         => CodeVerdict(later, o) = "reject"
